@@ -508,9 +508,9 @@ func (self *VM) Wait() (coreNum uint, i *value.VmInterrupt) {
 					vh("PreWaitErrLock", int64(core.Corenum), "")
 					self.Cores.Lock.Lock()
 					vh("WaitErrLock", int64(core.Corenum), "")
+					vh("WaitErrCancel", int64(core.Corenum), "")
 					(*self.CancelFunc)()
 					self.Cores.Cores = self.coresWithout(core.Corenum)
-					vh("WaitErrCancel", int64(core.Corenum), "")
 					vh("WaitErrUnlock", int64(core.Corenum), "")
 					self.Cores.Lock.Unlock()
 
